@@ -59,6 +59,7 @@ type CaseResult struct {
 	Faults     map[string]int `json:"faults,omitempty"`
 	Shape      string         `json:"shape"` // hash of the program
 	Sched      string         `json:"sched"` // hash of the schedule(s)
+	Hist       string         `json:"hist"`  // hash of the event histories
 	States     []string       `json:"-"`
 	Nontrivial bool           `json:"nontrivial"`
 	Sample     interface{}    `json:"sample,omitempty"`
@@ -79,6 +80,7 @@ func (c *CaseResult) addRun(r *Run) {
 		c.Faults[k] += v
 	}
 	c.Sched = fmt.Sprintf("%x", hash64(c.Sched, fmt.Sprint(r.SchedHash)))
+	c.Hist = fmt.Sprintf("%x", hash64(c.Hist, r.HistHash))
 	for _, v := range r.Violations {
 		c.Violations = append(c.Violations, v)
 	}
@@ -286,6 +288,14 @@ func WorkerMain(t *testing.T) {
 		workerReplay(t)
 	case "export":
 		workerExport(t)
+	case "sig":
+		// determinism self-test: one line per case with hashes of everything observable
+		for i := 0; i < *flagN; i++ {
+			seed := *flagSeed + uint64(i)
+			res := runCase(t, *flagProfile, seed, NewTape(seed*2+1), NewTape(seed*2+2), *flagTier, false)
+			fmt.Printf("SIG %s %d runs=%d steps=%d sched=%s hist=%s class=%s viol=%d jobs=%d\n", *flagProfile, seed,
+				res.Runs, res.Steps, res.Sched, res.Hist, res.Class, len(res.Violations), res.Jobs)
+		}
 	case "gen":
 		// print generated programs
 		for i := 0; i < *flagN; i++ {
